@@ -67,12 +67,13 @@ namespace igris
 
         ret.append(prefix);
         Iter it = start;
-        for (unsigned int i = 0; i < tot - 1; ++i)
+        for (size_t i = 0; i + 1 < tot; ++i)
         {
             ret.append(*it++);
             ret.append(delim);
         }
-        ret.append(*it);
+        if (tot != 0)
+            ret.append(*it);
         ret.append(postfix);
 
         return ret;
